@@ -28,32 +28,46 @@ WITNESSES = {'quick': ['cache-hit', 'cache-miss-after-mutation', 'build-raised']
 
 
 def families(tier):
+    mp4 = ['in/x', 'o', 'o/d', 'o/d/g']
     q = [
         {'name': 'A1a', 'params': {'hist': 'BMB', 'kinds': KINDS_ALL, 'roles': ['in/x', 'in', 'o', 'o/f', 'o/d']}},
         {'name': 'A2a', 'params': {'hist': 'BMB', 'kinds': KINDS_MED}},
-        {'name': 'A3', 'params': {'hist': 'BMB', 'kinds': KINDS_SMALL, 'roles': ['in/x', 'o']}, 'weight': 3},
-        {'name': 'A4', 'params': {'hist': 'BMB', 'kinds': KINDS_SMALL, 'roles': ['in/x', 'o']}, 'weight': 2},
-        {'name': 'A5a', 'params': {'hist': 'BMB', 'modes': ['ok', 'raise_before', 'raise_after']}, 'weight': 2},
-        {'name': 'A5b', 'params': {'hist': 'BMB', 'modes': ['ok', 'raise_before', 'raise_after']}, 'weight': 2},
-        {'name': 'A6', 'params': {'hist': 'BMB', 'kinds': ['is_dir', 'list_dir']}, 'weight': 2},
-        {'name': 'A7', 'params': {'hist': 'BMB', 'kinds': KINDS_SMALL, 'roles': ['in/x', 'in']}, 'weight': 2},
+        {'name': 'A3', 'params': {'hist': 'BMB', 'kinds': ['is_file', 'list_dir'], 'roles': ['o'], 'targets': ['o/d/g'],
+                                  'mut_paths': mp4}},
+        {'name': 'A3', 'params': {'hist': 'BMB', 'kinds': ['read_m'], 'roles': ['in/x'], 'targets': ['o/f', 'in/y'],
+                                  'modes': ['ok', 'raise_after'], 'mut_paths': ['in/x', 'in', 'o/f', 'in/y']}},
+        {'name': 'A4', 'params': {'hist': 'BMB', 'kinds': ['is_dir', 'read_m'], 'roles': ['o'], 'targets': ['o/d/g'],
+                                  'mut_paths': mp4}},
+        {'name': 'A5a', 'params': {'hist': 'BMB', 'modes': ['ok', 'raise_after'], 'mut_paths': mp4}},
+        {'name': 'A5b', 'params': {'hist': 'BMB', 'modes': ['ok', 'raise_before'], 'mut_paths': mp4}},
+        {'name': 'A6', 'params': {'hist': 'BMB', 'kinds': ['is_dir', 'list_dir'], 'mut_paths': ['o', 'o/d', 'o/x']}},
+        {'name': 'A7', 'params': {'hist': 'BMB', 'kinds': ['is_file'], 'roles': ['in/x'], 'targets': ['o/f'],
+                                  'mut_paths': ['in/x', 'in', 'o/f']}},
         {'name': 'A8', 'params': {'hist': 'BB', 'kinds': ['is_dir', 'is_file', 'list_dir']}},
-        {'name': 'A3', 'params': {'hist': 'BFB', 'kinds': ['is_file', 'read_m'], 'roles': ['in/x'],
+        {'name': 'A3', 'params': {'hist': 'BFB', 'kinds': ['is_file'], 'roles': ['in/x'], 'targets': ['o/d/g'],
                                   'modes': ['ok', 'raise_after']}},
     ]
     if tier == 'quick':
         return q
     return q + [
-        {'name': 'B1', 'params': {'hist': 'BMB', 'kinds': ['is_dir', 'list_dir']}},
-        {'name': 'B2', 'params': {'hist': 'BMB'}},
-        {'name': 'B3', 'params': {'hist': 'BMB'}},
-        {'name': 'B6a', 'params': {'hist': 'BMB', 'kinds': KINDS_SMALL}},
-        {'name': 'B6b', 'params': {'hist': 'BMB'}},
-        {'name': 'B7', 'params': {'hist': 'BMB', 'kinds': KINDS_SMALL}},
-        {'name': 'B8', 'params': {'hist': 'BMB'}},
-        {'name': 'A1b', 'params': {'hist': 'BMB', 'kinds': KINDS_MED}},
-        {'name': 'A2b', 'params': {'hist': 'BMBMB', 'kinds': KINDS_SMALL}},
-        {'name': 'A3', 'params': {'hist': 'BMBMB', 'kinds': KINDS_SMALL, 'roles': ['in/x']}, 'weight': 3},
+        {'name': 'A3', 'params': {'hist': 'BMB', 'kinds': KINDS_SMALL, 'roles': ['in/x', 'o']}, 'weight': 4},
+        {'name': 'A4', 'params': {'hist': 'BMB', 'kinds': KINDS_SMALL, 'roles': ['in/x', 'o']}, 'weight': 4},
+        {'name': 'A5a', 'params': {'hist': 'BMB', 'modes': ['ok', 'raise_before', 'raise_after']}, 'weight': 3},
+        {'name': 'A5b', 'params': {'hist': 'BMB', 'modes': ['ok', 'raise_before', 'raise_after']}, 'weight': 3},
+        {'name': 'A6', 'params': {'hist': 'BMB', 'kinds': ['is_dir', 'list_dir', 'walk']}, 'weight': 3},
+        {'name': 'A7', 'params': {'hist': 'BMB', 'kinds': KINDS_SMALL, 'roles': ['in/x', 'in']}, 'weight': 3},
+        {'name': 'B1', 'params': {'hist': 'BMB', 'kinds': ['is_dir', 'list_dir']}, 'weight': 2},
+        {'name': 'B2', 'params': {'hist': 'BMB'}, 'weight': 2},
+        {'name': 'B3', 'params': {'hist': 'BMB'}, 'weight': 2},
+        {'name': 'B6a', 'params': {'hist': 'BMB', 'kinds': KINDS_SMALL}, 'weight': 2},
+        {'name': 'B6b', 'params': {'hist': 'BMB'}, 'weight': 2},
+        {'name': 'B7', 'params': {'hist': 'BMB', 'kinds': KINDS_SMALL}, 'weight': 2},
+        {'name': 'B8', 'params': {'hist': 'BMB'}, 'weight': 2},
+        {'name': 'A1b', 'params': {'hist': 'BMB', 'kinds': KINDS_MED}, 'weight': 3},
+        {'name': 'A2b', 'params': {'hist': 'BMBMB', 'kinds': KINDS_SMALL}, 'weight': 2},
+        {'name': 'A3', 'params': {'hist': 'BMBMB', 'kinds': ['is_file'], 'roles': ['in/x'], 'targets': ['o/d/g'],
+                                  'mut_paths': mp4}, 'weight': 4},
+        {'name': 'A2a', 'params': {'hist': 'BCB', 'kinds': KINDS_SMALL}, 'weight': 1},
     ]
 
 
